@@ -469,6 +469,129 @@ fn data_is_whitespace(data: &[u8]) -> (r_: bool)
 //@     (new_pos, insertion_idx, prev_whitespace_delete, new_attributions)
 //@ }
 //#end
+//#item file=src/authorship/attribution_tracker.rs kind=struct name=MoveMapping
+pub(crate) struct MoveMapping {
+    pub(crate) deletion_idx: usize,
+    pub(crate) insertion_idx: usize,
+    pub(crate) source_range: (usize, usize),
+    pub(crate) target_range: (usize, usize),
+}
+//#end
+//#item file=src/authorship/attribution_tracker.rs kind=struct name=Insertion
+pub(crate) struct Insertion {
+    pub(crate) start: usize,
+    pub(crate) end: usize,
+    pub(crate) bytes: Vec<u8>,
+}
+//#end
+//#item file=src/authorship/attribution_tracker.rs kind=region name=ta_delete_move in=transform_attributions from="let insertion = &insertions[mapping.insertion_idx];" to="=}" from_nth=0 to_nth=5 impl="AttributionTracker"
+//@ fn region_ta_delete_move(insertions: &[Insertion], mapping: &MoveMapping, deletion_range: (usize, usize), old_attributions: &[Attribution], mut old_attr_cursor: usize, mut new_attributions: Vec<Attribution>) -> (r_: (usize, Vec<Attribution>))
+//@     requires
+//@         mapping.insertion_idx < insertions@.len(),
+//@         deletion_range.0 + mapping.source_range.0 <= usize::MAX, deletion_range.0 + mapping.source_range.1 <= usize::MAX,
+//@         mapping.source_range.0 < mapping.source_range.1 ==> insertions@[mapping.insertion_idx as int].start + mapping.target_range.0 + (mapping.source_range.1 - mapping.source_range.0) <= usize::MAX,
+//@         attrs_sorted(old_attributions@), old_attr_cursor <= old_attributions@.len(),
+//@         skipped_dead(old_attributions@, old_attr_cursor as int, deletion_range.0 + mapping.source_range.0),
+//@     ensures
+//@         old_attr_cursor <= r_.0 <= old_attributions@.len(),
+//@         skipped_dead(old_attributions@, r_.0 as int, deletion_range.0 + mapping.source_range.0),
+//@         prefix_kept(r_.1@, new_attributions@),
+//@         // an empty source range moves nothing
+//@         mapping.source_range.0 >= mapping.source_range.1 ==> (r_.1@ == new_attributions@ && r_.0 == old_attr_cursor),
+//@         // moved text keeps its author: sound and complete image of the old attributions that meet the moved source range,
+//@         // shifted to where the move lands inside the insertion
+//@         mapping.source_range.0 < mapping.source_range.1 ==> {
+//@             let p = deletion_range.0 + mapping.source_range.0;
+//@             let q = insertions@[mapping.insertion_idx as int].start + mapping.target_range.0;
+//@             let n = mapping.source_range.1 - mapping.source_range.0;
+//@             &&& eq_sound(r_.1@, new_attributions@.len() as int, old_attributions@, r_.0 as int, old_attributions@.len() as int, p, q, n)
+//@             &&& eq_complete(r_.1@, new_attributions@.len() as int, old_attributions@, r_.0 as int, old_attributions@.len() as int, p, q, n)
+//@             &&& in_segment(r_.1@, new_attributions@.len() as int, q, n)
+//@         },
+//@ {
+//@     let ghost in_attrs = new_attributions@; let ghost n0 = new_attributions@.len() as int; let ghost c0 = old_attr_cursor;
+//@     proof { assert(new_attributions@.subrange(0, in_attrs.len() as int) =~= in_attrs); }
+                            let insertion = &insertions[mapping.insertion_idx];
+                            let source_start = deletion_range.0 + mapping.source_range.0;
+                            let source_end = deletion_range.0 + mapping.source_range.1;
+
+                            if source_start < source_end {
+                                let target_start = insertion.start + mapping.target_range.0;
+                                //@ let ghost p = source_start as int; let ghost q = target_start as int; let ghost n = (source_end - source_start) as int;
+
+                                while old_attr_cursor < old_attributions.len()
+                                    && old_attributions[old_attr_cursor].end <= source_start
+                                    //@     invariant
+                                    //@         c0 <= old_attr_cursor <= old_attributions@.len(),
+                                    //@         skipped_dead(old_attributions@, old_attr_cursor as int, source_start as int),
+                                    //@     decreases old_attributions@.len() - old_attr_cursor,
+                                {
+                                    old_attr_cursor += 1;
+                                }
+                                let mut attr_idx = old_attr_cursor;
+                                //@ proof { lemma_eq_init(new_attributions@, old_attributions@, old_attr_cursor as int, p, q, n); }
+                                while attr_idx < old_attributions.len()
+                                //@     invariant
+                                //@         old_attr_cursor <= attr_idx <= old_attributions@.len(),
+                                //@         attrs_sorted(old_attributions@),
+                                //@         p == source_start, q == target_start, n == source_end - source_start, source_start < source_end, n0 == in_attrs.len(), q + n <= usize::MAX,
+                                //@         prefix_kept(new_attributions@, in_attrs),
+                                //@         eq_sound(new_attributions@, n0, old_attributions@, old_attr_cursor as int, attr_idx as int, p, q, n),
+                                //@         eq_complete(new_attributions@, n0, old_attributions@, old_attr_cursor as int, attr_idx as int, p, q, n),
+                                //@         in_segment(new_attributions@, n0, q, n),
+                                //@     ensures
+                                //@         old_attr_cursor <= attr_idx <= old_attributions@.len(),
+                                //@         prefix_kept(new_attributions@, in_attrs),
+                                //@         eq_sound(new_attributions@, n0, old_attributions@, old_attr_cursor as int, old_attributions@.len() as int, p, q, n),
+                                //@         eq_complete(new_attributions@, n0, old_attributions@, old_attr_cursor as int, old_attributions@.len() as int, p, q, n),
+                                //@         in_segment(new_attributions@, n0, q, n),
+                                //@     decreases old_attributions@.len() - attr_idx,
+                                {
+                                    let attr = &old_attributions[attr_idx];
+                                    //@ let ghost before = new_attributions@;
+                                    if attr.start >= source_end {
+                                    //@     proof {
+                                    //@         assert forall|j: int| attr_idx <= j < old_attributions@.len() implies !seg_meets(#[trigger] old_attributions@[j], p, n) by {
+                                    //@             assert(old_attributions@[attr_idx as int].start <= old_attributions@[j].start);
+                                    //@         }
+                                    //@         lemma_rest(new_attributions@, n0, old_attributions@, old_attr_cursor as int, attr_idx as int, p, q, n);
+                                    //@     }
+                                        break;
+                                    }
+                                    if let Some((overlap_start, overlap_end)) =
+                                        attr.intersection(source_start, source_end)
+                                    {
+                                        let offset_in_source = overlap_start - source_start;
+                                        let new_start = target_start + offset_in_source;
+                                        let new_end = new_start + (overlap_end - overlap_start);
+
+                                        if new_start < new_end {
+                                            new_attributions.push(Attribution::new(
+                                                new_start,
+                                                new_end,
+                                                attr.author_id.clone(),
+                                                attr.ts,
+                                            ));
+                                        }
+                                    }
+                                    //@ proof {
+                                    //@     let j0 = attr_idx as int;
+                                    //@     if new_attributions@.len() > before.len() {
+                                    //@         let x = new_attributions@[before.len() as int];
+                                    //@         assert(new_attributions@ =~= before.push(x));
+                                    //@         lemma_push_sound(before, x, n0, old_attributions@, old_attr_cursor as int, j0, p, q, n);
+                                    //@         lemma_push_complete(before, x, n0, old_attributions@, old_attr_cursor as int, j0, p, q, n);
+                                    //@         lemma_push_inside(before, x, in_attrs, n0, q, n);
+                                    //@     } else {
+                                    //@         lemma_skip(new_attributions@, n0, old_attributions@, old_attr_cursor as int, j0, p, q, n);
+                                    //@     }
+                                    //@ }
+                                    attr_idx += 1;
+                                }
+                            }
+//@     (old_attr_cursor, new_attributions)
+//@ }
+//#end
 
 } // verus!
 fn main() {}
